@@ -25,7 +25,9 @@ import traceback
 import warnings
 
 VERIF = os.path.dirname(os.path.dirname(os.path.abspath(__file__)))
-EVIDENCE = os.path.join(VERIF, "evidence")
+# evidence directory: redirected while the checks are tried against seeded (deliberately broken)
+# trees, so that the committed evidence of the real tree is not overwritten
+EVIDENCE = os.environ.get("VF_EVIDENCE_DIR") or os.path.join(VERIF, "evidence")
 REPLAYS = os.path.join(EVIDENCE, "replays")
 KNOWN = os.path.join(VERIF, "known_findings.jsonl")
 
